@@ -125,8 +125,15 @@ def annotEntry (q : List AnnotP) (n : String) : Option AnnotP :=
   | some a => if a.params.isEmpty then none else some (normAnnot a)
   | none => none
 
-theorem normInitVIs_eq (vis : List ValueInfoP) (inN : List String) (ts : List TensorP) :
-    normInitVIs vis inN ts = (ts.filter (fun t => !inN.contains t.name)).map (initEntry vis) := by
+/-- the canonical entry of a non-input initializer, also when it is a graph output -/
+def initEntryO (vis outputs : List ValueInfoP) (t : TensorP) : Option ValueInfoP :=
+  match findVI outputs t.name with
+  | some vo => if viHasInfo vo then some (normValueInfo vo) else none
+  | none => some (initEntry vis t)
+
+theorem normInitVIs_eq (vis outputs : List ValueInfoP) (inN : List String) (ts : List TensorP) :
+    normInitVIs vis outputs inN ts
+      = (ts.filter (fun t => !inN.contains t.name)).filterMap (initEntryO vis outputs) := by
   induction ts with
   | nil => rfl
   | cons t ts ih =>
@@ -134,8 +141,11 @@ theorem normInitVIs_eq (vis : List ValueInfoP) (inN : List String) (ts : List Te
     by_cases h : inN.contains t.name = true
     · simp only [h, if_true, Bool.not_true, Bool.false_eq_true, if_false, List.nil_append]
     · have h' : inN.contains t.name = false := by simpa using h
-      simp only [h', Bool.false_eq_true, if_false, Bool.not_false, if_true, List.map_cons, initEntry]
-      cases findVI vis t.name <;> rfl
+      simp only [h', Bool.false_eq_true, if_false, Bool.not_false, if_true, List.filterMap_cons,
+        initEntryO, initEntry]
+      cases findVI outputs t.name with
+      | some vo => by_cases hi : viHasInfo vo = true <;> simp [hi]
+      | none => cases findVI vis t.name <;> rfl
 
 theorem normNodeVIs_eq (vis : List ValueInfoP) (outN : List String) (ks : List String) :
     normNodeVIs vis outN ks = (ks.filter (fun n => !outN.contains n)).filterMap (nodeEntry vis) := by
@@ -191,6 +201,81 @@ theorem initEntry_name (vis : List ValueInfoP) (t : TensorP) : (initEntry vis t)
   cases hf : findVI vis t.name with
   | none => rfl
   | some vi => simp [normValueInfo, fillFromTensor, (findVI_mem hf).2]
+
+theorem initEntryO_name {vis outputs : List ValueInfoP} {t : TensorP} {b : ValueInfoP}
+    (h : initEntryO vis outputs t = some b) : b.name = t.name := by
+  unfold initEntryO at h
+  cases hf : findVI outputs t.name with
+  | some vo =>
+    rw [hf] at h
+    simp only at h
+    split at h
+    · cases h; simp [normValueInfo, (findVI_mem hf).2]
+    · cases h
+  | none =>
+    rw [hf] at h
+    cases h
+    exact initEntry_name vis t
+
+theorem findLast?_filterMap_tensors (G : TensorP → Option ValueInfoP)
+    (hG : ∀ t b, G t = some b → b.name = t.name) :
+    ∀ Tn : List TensorP, (Tn.map (·.name)).Nodup → ∀ t ∈ Tn,
+      findLast? (fun v => v.name = t.name) (Tn.filterMap G) = G t
+  | [], _, t, ht => by cases ht
+  | x :: xs, hnd, t, ht => by
+    simp only [List.map_cons, List.nodup_cons] at hnd
+    have hsplit : (x :: xs).filterMap G = (G x).toList ++ xs.filterMap G := by
+      simp only [List.filterMap_cons]; cases G x <;> rfl
+    rw [hsplit, findLast?_append]
+    rcases List.mem_cons.1 ht with rfl | ht
+    · have : findLast? (fun v => v.name = t.name) (xs.filterMap G) = none := by
+        apply findLast?_none_of_forall
+        intro v hv
+        obtain ⟨u, hu, huv⟩ := List.mem_filterMap.1 hv
+        simp only [decide_eq_false_iff_not]
+        rw [hG u v huv]
+        intro e
+        exact hnd.1 (by rw [← e]; exact List.mem_map_of_mem hu)
+      rw [this]
+      cases hgt : G t with
+      | none => rfl
+      | some b => simp [findLast?, hG t b hgt]
+    · rw [findLast?_filterMap_tensors G hG xs hnd.2 t ht]
+      cases hgt : G t with
+      | some b => rfl
+      | none =>
+        simp only
+        cases hgx : G x with
+        | none => rfl
+        | some b =>
+          have : ¬ b.name = t.name := by
+            rw [hG x b hgx]
+            intro e
+            exact hnd.1 (by rw [e]; exact List.mem_map_of_mem ht)
+          simp [findLast?, this]
+
+theorem findVI_none_iff {l : List ValueInfoP} {n : String} : findVI l n = none ↔ n ∉ l.map (·.name) := by
+  constructor
+  · intro h hm
+    obtain ⟨v, hv, hn⟩ := List.mem_map.1 hm
+    induction l with
+    | nil => cases hv
+    | cons x xs ih =>
+      simp only [findVI, findLast?] at h
+      cases hx : findLast? (fun v => v.name = n) xs with
+      | some y => rw [hx] at h; cases h
+      | none =>
+        rw [hx] at h
+        simp only at h
+        rcases List.mem_cons.1 hv with rfl | hv
+        · simp [hn] at h
+        · exact ih hx (by rw [← hn]; exact List.mem_map_of_mem hv) hv
+  · intro h
+    apply findLast?_none_of_forall
+    intro v hv
+    simp only [decide_eq_false_iff_not]
+    intro e
+    exact h (by rw [← e]; exact List.mem_map_of_mem hv)
 
 /-- entries are fixed points of the normalisations that produced them -/
 theorem fillLeafShape_idem (D : ShapeP) (t : TypeP) :
@@ -272,8 +357,8 @@ theorem nodupNames_parts (hw : GraphWF inits inputs outputs vis quant outs) :
 /-- looking an initializer up in the canonical value_info list -/
 theorem findVI_canon_init (hw : GraphWF inits inputs outputs vis quant outs) {t : TensorP}
     (ht : t ∈ inits) (hni : t.name ∉ inputs.map (·.name)) :
-    findVI (normInitVIs vis (inputs.map (·.name)) inits
-        ++ normNodeVIs vis (outputs.map (·.name)) outs) t.name = some (initEntry vis t) := by
+    findVI (normInitVIs vis outputs (inputs.map (·.name)) inits
+        ++ normNodeVIs vis (outputs.map (·.name)) outs) t.name = initEntryO vis outputs t := by
   obtain ⟨_, houts, hdis⟩ := nodupNames_parts hw
   rw [normInitVIs_eq, normNodeVIs_eq]
   unfold findVI
@@ -287,26 +372,15 @@ theorem findVI_canon_init (hw : GraphWF inits inputs outputs vis quant outs) {t 
   simp only [hnotin, if_false] at hB
   rw [hB]
   simp only
-  have hndA : (((inits.filter (fun t => !(inputs.map (·.name)).contains t.name)).map (initEntry vis)).map
-      (·.name)).Nodup := by
-    simp only [List.map_map]
-    have : ((fun x : ValueInfoP => x.name) ∘ initEntry vis) = (fun t : TensorP => t.name) := by
-      funext t; simp [initEntry_name]
-    rw [this]
-    exact List.Nodup.sublist (List.Sublist.map _ List.filter_sublist) hw.nodupInit
-  rw [findLast?_eq_find? (fun v : ValueInfoP => v.name) t.name _ hndA,
-    find?_map_name _ _ (initEntry_name vis)]
   have hmem : t ∈ inits.filter (fun t => !(inputs.map (·.name)).contains t.name) :=
     List.mem_filter.2 ⟨ht, by simpa using hni⟩
-  have := find?_of_nodup (fun t : TensorP => t.name)
-    (List.Nodup.sublist (List.Sublist.map _ List.filter_sublist) hw.nodupInit) hmem
-  rw [this]
-  rfl
+  exact findLast?_filterMap_tensors (initEntryO vis outputs) (fun t b h => initEntryO_name h) _
+    (List.Nodup.sublist (List.Sublist.map _ List.filter_sublist) hw.nodupInit) t hmem
 
 /-- looking a node output (not a graph output) up in the canonical value_info list -/
 theorem findVI_canon_node (hw : GraphWF inits inputs outputs vis quant outs) {n : String}
     (hn : n ∈ outs) (hno : n ∉ outputs.map (·.name)) :
-    findVI (normInitVIs vis (inputs.map (·.name)) inits
+    findVI (normInitVIs vis outputs (inputs.map (·.name)) inits
         ++ normNodeVIs vis (outputs.map (·.name)) outs) n = nodeEntry vis n := by
   obtain ⟨_, houts, hdis⟩ := nodupNames_parts hw
   rw [normInitVIs_eq, normNodeVIs_eq]
@@ -325,8 +399,9 @@ theorem findVI_canon_node (hw : GraphWF inits inputs outputs vis quant outs) {n 
     simp only
     apply findLast?_none_of_forall
     intro v hv
-    obtain ⟨t, ht, rfl⟩ := List.mem_map.1 hv
-    simp only [initEntry_name, decide_eq_false_iff_not]
+    obtain ⟨t, ht, htv⟩ := List.mem_filterMap.1 hv
+    simp only [decide_eq_false_iff_not]
+    rw [initEntryO_name htv]
     intro e
     exact (hdis n hn).2 (by rw [← e]; exact List.mem_map_of_mem (List.mem_filter.1 ht).1)
 
@@ -344,25 +419,45 @@ theorem nodeEntry_fixed {vis : List ValueInfoP} {n : String} {e : ValueInfoP}
       exact ⟨by rw [viHasInfo_norm]; exact hi, normValueInfo_idem vi⟩
     · cases h
 
-theorem initVIs_of_lookup (vis L : List ValueInfoP) (inN : List String) (inits : List TensorP)
-    (h : ∀ t ∈ inits, t.name ∉ inN → findVI L t.name = some (initEntry vis t)) :
-    normInitVIs L inN (inits.map normTensor) = normInitVIs vis inN inits := by
+theorem findVI_map_norm (l : List ValueInfoP) (n : String) :
+    findVI (l.map normValueInfo) n = (findVI l n).map normValueInfo := by
+  induction l with
+  | nil => rfl
+  | cons x xs ih =>
+    simp only [findVI] at ih
+    simp only [findVI, List.map_cons, findLast?, ih]
+    cases findLast? (fun v => v.name = n) xs with
+    | some y => rfl
+    | none =>
+      have : (normValueInfo x).name = x.name := rfl
+      simp only [Option.map_none, this]
+      by_cases h : x.name = n <;> simp [h]
+
+theorem initVIs_of_lookup (vis outputs L : List ValueInfoP) (inN : List String) (inits : List TensorP)
+    (h : ∀ t ∈ inits, t.name ∉ inN → t.name ∉ outputs.map (·.name) →
+      findVI L t.name = some (initEntry vis t)) :
+    normInitVIs L (outputs.map normValueInfo) inN (inits.map normTensor)
+      = normInitVIs vis outputs inN inits := by
   rw [normInitVIs_eq, normInitVIs_eq]
   have hf : (inits.map normTensor).filter (fun t => !inN.contains t.name)
       = (inits.filter (fun t => !inN.contains t.name)).map normTensor := by
     rw [← filter_map_comm normTensor (fun t => !inN.contains t.name) inits]
     rfl
-  rw [hf, List.map_map]
-  apply List.map_congr_left
+  rw [hf, List.filterMap_map]
+  apply filterMap_congr'
   intro t ht
   have htm := (List.mem_filter.1 ht).1
   have hni : t.name ∉ inN := by simpa using (List.mem_filter.1 ht).2
-  simp only [Function.comp]
-  have hl := h t htm hni
-  have : initEntry L (normTensor t) = normValueInfo (fillFromTensor (initEntry vis t) (normTensor t)) := by
-    simp only [initEntry, normTensor_name, hl]
-  rw [this]
-  exact initEntry_fixed vis t
+  simp only [Function.comp, initEntryO, normTensor_name, findVI_map_norm]
+  cases hfo : findVI outputs t.name with
+  | some vo =>
+    simp only [Option.map_some, viHasInfo_norm, normValueInfo_idem]
+  | none =>
+    simp only [Option.map_none]
+    have hl := h t htm hni (findVI_none_iff.1 hfo)
+    have : initEntry L (normTensor t) = normValueInfo (fillFromTensor (initEntry vis t) (normTensor t)) := by
+      simp only [initEntry, normTensor_name, hl]
+    rw [this, initEntry_fixed vis t]
 
 theorem nodeVIs_of_lookup (vis L : List ValueInfoP) (outN outs : List String)
     (h : ∀ n ∈ outs, n ∉ outN → findVI L n = nodeEntry vis n) :
@@ -383,14 +478,34 @@ theorem nodeVIs_of_lookup (vis L : List ValueInfoP) (outN outs : List String)
     obtain ⟨h1, h2⟩ := nodeEntry_fixed hne
     simp [h1, h2]
 
-theorem canon_vis_idem (hw : GraphWF inits inputs outputs vis quant outs) :
-    normInitVIs (normInitVIs vis (inputs.map (·.name)) inits
-          ++ normNodeVIs vis (outputs.map (·.name)) outs) (inputs.map (·.name)) (inits.map normTensor)
-      ++ normNodeVIs (normInitVIs vis (inputs.map (·.name)) inits
-          ++ normNodeVIs vis (outputs.map (·.name)) outs) (outputs.map (·.name)) outs
-    = normInitVIs vis (inputs.map (·.name)) inits ++ normNodeVIs vis (outputs.map (·.name)) outs := by
-  rw [initVIs_of_lookup vis _ _ inits (fun t ht hni => findVI_canon_init hw ht hni),
-    nodeVIs_of_lookup vis _ _ outs (fun n hn hno => findVI_canon_node hw hn hno)]
+theorem findVI_append_of_not_mem (C X : List ValueInfoP) (n : String) (h : n ∉ X.map (·.name)) :
+    findVI (C ++ X) n = findVI C n := by
+  unfold findVI
+  rw [findLast?_append]
+  have := findVI_none_iff.2 h
+  unfold findVI at this
+  rw [this]
+
+theorem canon_vis_idem (hw : GraphWF inits inputs outputs vis quant outs) (X : List ValueInfoP)
+    (hX : ∀ e ∈ X, e.name ∉ scopeNames (inputs.map (·.name)) (inits.map (·.name)) outs) :
+    normInitVIs (normInitVIs vis outputs (inputs.map (·.name)) inits
+          ++ normNodeVIs vis (outputs.map (·.name)) outs ++ X) (outputs.map normValueInfo)
+          (inputs.map (·.name)) (inits.map normTensor)
+      ++ normNodeVIs (normInitVIs vis outputs (inputs.map (·.name)) inits
+          ++ normNodeVIs vis (outputs.map (·.name)) outs ++ X) (outputs.map (·.name)) outs
+    = normInitVIs vis outputs (inputs.map (·.name)) inits
+        ++ normNodeVIs vis (outputs.map (·.name)) outs := by
+  have hnot : ∀ n ∈ scopeNames (inputs.map (·.name)) (inits.map (·.name)) outs, n ∉ X.map (·.name) := by
+    intro n hn hm
+    obtain ⟨e, he, rfl⟩ := List.mem_map.1 hm
+    exact hX e he hn
+  rw [initVIs_of_lookup vis outputs _ _ inits (fun t ht hni hno => by
+        rw [findVI_append_of_not_mem _ X _ (hnot _ (mem_scopeNames.2 (Or.inr (Or.inl
+          ⟨List.mem_map_of_mem ht, hni⟩)))), findVI_canon_init hw ht hni]
+        simp [initEntryO, findVI_none_iff.2 hno]),
+    nodeVIs_of_lookup vis _ _ outs (fun n hn hno => by
+        rw [findVI_append_of_not_mem _ X _ (hnot _ (mem_scopeNames.2 (Or.inr (Or.inr hn)))),
+          findVI_canon_node hw hn hno])]
 
 theorem canon_quant_idem (q : List AnnotP) (K : List String) (hK : K.Nodup)
     (hq : ∀ a ∈ q, a.params ≠ []) :
@@ -494,12 +609,16 @@ theorem quantKeys_nodup {inits : List TensorP} {inputs outputs vis : List ValueI
         decide_eq_false_iff_not] at ha
       exact ha.2 hb.1
 
-theorem normGraph_idem_core (outer : Scopes) (name doc : String) (nodes : List NodeP)
+/-- normalising a normalised graph, even with extra value_info entries `X` whose names are not
+values of the graph appended (the experimental function entries of IR < 10), gives it back -/
+theorem normGraph_idem_ext (outer : Scopes) (name doc : String) (nodes : List NodeP)
     (inits : List TensorP) (inputs outputs vis : List ValueInfoP) (quant : List AnnotP)
     (metadata : List Entry)
     (hwf : wfGraph outer (.mk name doc nodes inits inputs outputs vis quant metadata) = true)
-    (hnodes : normNodes (normNodes nodes) = normNodes nodes) :
-    normGraph (normGraph (.mk name doc nodes inits inputs outputs vis quant metadata))
+    (hnodes : normNodes (normNodes nodes) = normNodes nodes) (X : List ValueInfoP)
+    (hX : ∀ e ∈ X, e.name ∉ scopeNames (inputs.map (·.name)) (inits.map (·.name)) (nodeOutNames nodes)) :
+    normGraph (GraphP.addValueInfo
+        (normGraph (.mk name doc nodes inits inputs outputs vis quant metadata)) X)
       = normGraph (.mk name doc nodes inits inputs outputs vis quant metadata) := by
   obtain ⟨hw, _⟩ := graphWF_of_wf outer name doc nodes inits inputs outputs vis quant metadata hwf
   have e1 : (inputs.map normValueInfo).map (·.name) = inputs.map (·.name) := by
@@ -514,9 +633,20 @@ theorem normGraph_idem_core (outer : Scopes) (name doc : String) (nodes : List N
     simp [List.map_map, Function.comp_def, normValueInfo_idem]
   have e6 : (outputs.map normValueInfo).map normValueInfo = outputs.map normValueInfo := by
     simp [List.map_map, Function.comp_def, normValueInfo_idem]
-  simp only [normGraph, e1, e2, e3, e4, e5, e6, hnodes, nodeOutNames_normNodes, normEntries_idem,
-    canon_vis_idem hw,
+  simp only [normGraph, GraphP.addValueInfo, e1, e2, e3, e4, e5, e6, hnodes, nodeOutNames_normNodes,
+    normEntries_idem, canon_vis_idem hw X hX,
     canon_quant_idem quant _ (quantKeys_nodup hw) (fun a ha => (hw.quantOK a ha).2.1)]
+
+theorem normGraph_idem_core (outer : Scopes) (name doc : String) (nodes : List NodeP)
+    (inits : List TensorP) (inputs outputs vis : List ValueInfoP) (quant : List AnnotP)
+    (metadata : List Entry)
+    (hwf : wfGraph outer (.mk name doc nodes inits inputs outputs vis quant metadata) = true)
+    (hnodes : normNodes (normNodes nodes) = normNodes nodes) :
+    normGraph (normGraph (.mk name doc nodes inits inputs outputs vis quant metadata))
+      = normGraph (.mk name doc nodes inits inputs outputs vis quant metadata) := by
+  have := normGraph_idem_ext outer name doc nodes inits inputs outputs vis quant metadata hwf hnodes []
+    (by intro e he; cases he)
+  rwa [addValueInfo_nil] at this
 
 mutual
 theorem normAttr_idem (scopes : Scopes) : ∀ a : AttrP, wfAttr scopes a = true →
@@ -611,21 +741,162 @@ theorem normFunction_idem (ver : Int) (f : FunctionP) (h : wfFunction ver f = tr
   | false => rfl
   | true => simp [normFnVIs_idem f.valueInfo _ (nodupStr_iff.1 h1)]
 
+/-! ### the experimental entries of a normalised IR < 10 model -/
+
+abbrev FKey := String × String × String
+
+/-- keyed lists again, for keys extracted from the elements (`key b = some k`) -/
+theorem findLast?_filterMap_okey {β κ : Type} [DecidableEq κ] (key : β → Option κ) (F : κ → Option β)
+    (hF : ∀ k b, F k = some b → key b = some k) :
+    ∀ K : List κ, K.Nodup → ∀ k,
+      findLast? (fun b => key b = some k) (K.filterMap F) = if k ∈ K then F k else none
+  | [], _, k => by simp [findLast?]
+  | x :: xs, hnd, k => by
+    rw [List.nodup_cons] at hnd
+    have ih := findLast?_filterMap_okey key F hF xs hnd.2 k
+    have hsplit : (x :: xs).filterMap F = (F x).toList ++ xs.filterMap F := by
+      simp only [List.filterMap_cons]; cases F x <;> rfl
+    rw [hsplit, findLast?_append, ih]
+    by_cases hn : k ∈ xs
+    · have hnk : k ≠ x := fun e => hnd.1 (e ▸ hn)
+      simp only [hn, if_true, List.mem_cons, hnk, false_or]
+      cases hFn : F k with
+      | some b => rfl
+      | none =>
+        simp only
+        cases hFk : F x with
+        | none => rfl
+        | some b =>
+          have : ¬ key b = some k := by
+            rw [hF x b hFk]; intro e; exact hnk (Option.some.inj e).symm
+          simp [findLast?, this]
+    · simp only [hn, if_false, List.mem_cons, or_false]
+      by_cases hnk : k = x
+      · subst hnk
+        simp only [if_true]
+        cases hFk : F k with
+        | none => rfl
+        | some b => simp [findLast?, hF k b hFk]
+      · simp only [hnk, if_false]
+        cases hFk : F x with
+        | none => rfl
+        | some b =>
+          have : ¬ key b = some k := by
+            rw [hF x b hFk]; intro e; exact hnk (Option.some.inj e).symm
+          simp [findLast?, this]
+
+/-- the keys `(domain, name, value)` of the values of a function the encoding can address -/
+def fnKeys (f : FunctionP) : List FKey :=
+  if !f.overload.isEmpty then [] else
+  (f.inputs ++ nodeOutNames f.nodes).map fun vn => (f.domain, f.name, vn)
+
+/-- `expEntry`, by key -/
+def expEntryK (L : List ValueInfoP) (k : FKey) : Option ValueInfoP :=
+  match findLast? (fun e => parseExperimentalName e.name = some k) L with
+  | some e => if viHasInfo e then some (normValueInfo e) else none
+  | none => none
+
+theorem experimentalVIs_eq (L : List ValueInfoP) (f : FunctionP) :
+    experimentalVIs L f = (fnKeys f).filterMap (expEntryK L) := by
+  unfold experimentalVIs fnKeys
+  split
+  · rfl
+  · rw [List.filterMap_map]; rfl
+
+theorem flatMap_experimentalVIs_eq (L : List ValueInfoP) (fs : List FunctionP) :
+    fs.flatMap (experimentalVIs L) = (fs.flatMap fnKeys).filterMap (expEntryK L) := by
+  induction fs with
+  | nil => rfl
+  | cons f fs ih => simp only [List.flatMap_cons, List.filterMap_append, ih, experimentalVIs_eq]
+
+theorem fnKeys_normFunction (c : Bool) (f : FunctionP) : fnKeys (normFunction c f) = fnKeys f := by
+  simp [fnKeys, normFunction, nodeOutNames_normNodes]
+
+theorem expEntryK_key {L : List ValueInfoP} {k : FKey} {b : ValueInfoP} (h : expEntryK L k = some b) :
+    parseExperimentalName b.name = some k ∧ viHasInfo b = true ∧ normValueInfo b = b := by
+  unfold expEntryK at h
+  cases hf : findLast? (fun e => parseExperimentalName e.name = some k) L with
+  | none => rw [hf] at h; cases h
+  | some e =>
+    rw [hf] at h
+    simp only at h
+    split at h
+    · rename_i hi
+      cases h
+      have := (findLast?_mem hf).2
+      exact ⟨by simpa [normValueInfo] using this, by rw [viHasInfo_norm]; exact hi, normValueInfo_idem e⟩
+    · cases h
+
+theorem nodup_map_inj {α β : Type} {f : α → β} (hf : ∀ a b, f a = f b → a = b) :
+    ∀ {l : List α}, l.Nodup → (l.map f).Nodup
+  | [], _ => by simp
+  | x :: xs, h => by
+    rw [List.nodup_cons] at h
+    simp only [List.map_cons, List.nodup_cons]
+    refine ⟨?_, nodup_map_inj hf h.2⟩
+    intro hm
+    obtain ⟨y, hy, hxy⟩ := List.mem_map.1 hm
+    exact h.1 (hf _ _ hxy ▸ hy)
+
+theorem expEntryK_append (A B : List ValueInfoP) (k : FKey) :
+    expEntryK (A ++ B) k = match findLast? (fun e => parseExperimentalName e.name = some k) B with
+      | some e => if viHasInfo e then some (normValueInfo e) else none
+      | none => expEntryK A k := by
+  simp only [expEntryK, findLast?_append]
+  cases findLast? (fun e => parseExperimentalName e.name = some k) B <;> rfl
+
+theorem fnKeys_nodup (ver : Int) : ∀ fs : List FunctionP, fs.all (wfFunction ver) = true →
+    (fs.map fun f => (f.domain, f.name, f.overload)).Nodup → (fs.flatMap fnKeys).Nodup
+  | [], _, _ => by simp
+  | f :: fs, hwf, hk => by
+    simp only [List.all_cons, Bool.and_eq_true] at hwf
+    simp only [List.map_cons, List.nodup_cons] at hk
+    rw [List.flatMap_cons, List.nodup_append]
+    refine ⟨?_, fnKeys_nodup ver fs hwf.2 hk.2, ?_⟩
+    · unfold fnKeys
+      split
+      · simp
+      · have h1 : (f.inputs ++ nodeOutNames f.nodes).Nodup := by
+          have := hwf.1
+          simp only [wfFunction, Bool.and_eq_true] at this
+          exact nodupStr_iff.1 this.1.1.1.1.1.1.1.1.1.1.1.1
+        exact nodup_map_inj (fun a b e => by simpa using e) h1
+    · intro a ha b hb e
+      subst e
+      unfold fnKeys at ha
+      split at ha
+      · cases ha
+      · rename_i hov
+        obtain ⟨vn, _, rfl⟩ := List.mem_map.1 ha
+        obtain ⟨g, hg, hgk⟩ := List.mem_flatMap.1 hb
+        unfold fnKeys at hgk
+        split at hgk
+        · cases hgk
+        · rename_i hov'
+          obtain ⟨vn', _, hk'⟩ := List.mem_map.1 hgk
+          simp only [Prod.mk.injEq] at hk'
+          have ho1 : f.overload = "" := by simpa [String.isEmpty_iff] using hov
+          have ho2 : g.overload = "" := by simpa [String.isEmpty_iff] using hov'
+          exact hk.1 (List.mem_map.2 ⟨g, hg, by simp [hk'.1, hk'.2.1, ho1, ho2]⟩)
+
+theorem mem_canonVI_name {inits : List TensorP} {inputs outputs vis : List ValueInfoP} {outs : List String}
+    {e : ValueInfoP}
+    (he : e ∈ normInitVIs vis outputs (inputs.map (·.name)) inits
+      ++ normNodeVIs vis (outputs.map (·.name)) outs) :
+    e.name ∈ scopeNames (inputs.map (·.name)) (inits.map (·.name)) outs := by
+  rw [normInitVIs_eq, normNodeVIs_eq] at he
+  rcases List.mem_append.1 he with he | he
+  · obtain ⟨t, ht, hte⟩ := List.mem_filterMap.1 he
+    rw [initEntryO_name hte]
+    have := List.mem_filter.1 ht
+    exact mem_scopeNames.2 (Or.inr (Or.inl ⟨List.mem_map_of_mem this.1, by simpa using this.2⟩))
+  · obtain ⟨n, hn, hne⟩ := List.mem_filterMap.1 he
+    rw [nodeEntry_name hne]
+    exact mem_scopeNames.2 (Or.inr (Or.inr (List.mem_filter.1 hn).1))
+
 theorem normModel_idem (m : ModelP) (h : wfModel m = true) : normModel (normModel m) = normModel m := by
-  have h0 := h
   simp only [wfModel, Bool.and_eq_true] at h
-  obtain ⟨⟨⟨⟨⟨⟨hg, hf⟩, _hmeta⟩, _hops⟩, _hkeys⟩, _hdev⟩, _hexp⟩ := h
-  have hexpN : m.irVersion < 10 → m.functions.flatMap experimentalVIs = [] := by
-    intro hlt
-    rw [List.flatMap_eq_nil_iff]
-    intro f hfm
-    apply experimentalVIs_nil
-    have := List.all_eq_true.1 hf f hfm
-    simp only [wfFunction, Bool.and_eq_true, Bool.or_eq_true, decide_eq_true_eq,
-      List.isEmpty_iff] at this
-    rcases this.2 with h10 | h10
-    · omega
-    · exact h10
+  obtain ⟨⟨⟨⟨⟨⟨hg, hf⟩, _hmeta⟩, _hops⟩, hkeys⟩, _hdev⟩, hexp⟩ := h
   have hfun : (m.functions.map (normFunction (decide (m.irVersion ≥ 10)))).map
       (normFunction (decide (m.irVersion ≥ 10)))
       = m.functions.map (normFunction (decide (m.irVersion ≥ 10))) := by
@@ -636,15 +907,81 @@ theorem normModel_idem (m : ModelP) (h : wfModel m = true) : normModel (normMode
   by_cases hc : m.irVersion ≥ 10
   · simp only [hc] at hfun
     simp only [normModel, hc, if_true, normEntries_idem, normGraph_idem [] m.graph hg, hfun]
-  · have hlt : m.irVersion < 10 := by omega
-    have hexpN' : (m.functions.map (normFunction (decide (m.irVersion ≥ 10)))).flatMap experimentalVIs = [] := by
-      rw [List.flatMap_eq_nil_iff]
-      intro f' hf'
-      obtain ⟨f, _, rfl⟩ := List.mem_map.1 hf'
-      apply experimentalVIs_nil
-      simp [normFunction, hc]
-    simp only [hc] at hfun hexpN'
-    simp only [normModel, hc, if_false, hexpN hlt, addValueInfo_nil, normEntries_idem,
-      normGraph_idem [] m.graph hg, hfun, hexpN']
+  · have hnp : ∀ n ∈ scopeNames (m.graph.inputs.map (·.name)) (m.graph.initializers.map (·.name))
+        (nodeOutNames m.graph.nodes), parseExperimentalName n = none := by
+      intro n hn
+      rcases Bool.or_eq_true_iff.1 hexp with h1 | h1
+      · simp at h1; exact absurd h1 hc
+      · have := List.all_eq_true.1 h1 n hn
+        simpa using this
+    cases hmg : m.graph with
+    | mk name doc nodes inits inputs outputs vis quant md =>
+      rw [hmg] at hg hnp
+      simp only [GraphP.inputs, GraphP.initializers, GraphP.nodes] at hnp
+      obtain ⟨_, hwn⟩ := graphWF_of_wf [] name doc nodes inits inputs outputs vis quant md hg
+      have hnodes := normNodes_idem _ nodes hwn
+      -- the experimental entries, as a list keyed by (domain, name, value)
+      have hK := fnKeys_nodup m.irVersion m.functions hf (nodupKeys_iff.1 hkeys)
+      have hXname : ∀ e ∈ (m.functions.flatMap fnKeys).filterMap (expEntryK vis),
+          e.name ∉ scopeNames (inputs.map (·.name)) (inits.map (·.name)) (nodeOutNames nodes) := by
+        intro e he hn
+        obtain ⟨k, _, hk⟩ := List.mem_filterMap.1 he
+        have := (expEntryK_key hk).1
+        rw [hnp _ hn] at this
+        cases this
+      have hgraph := normGraph_idem_ext [] name doc nodes inits inputs outputs vis quant md hg hnodes
+        ((m.functions.flatMap fnKeys).filterMap (expEntryK vis)) hXname
+      -- looking a key up in the value_info of the normalised model
+      have hlook : ∀ k ∈ m.functions.flatMap fnKeys,
+          expEntryK ((normInitVIs vis outputs (inputs.map (·.name)) inits
+              ++ normNodeVIs vis (outputs.map (·.name)) (nodeOutNames nodes))
+            ++ (m.functions.flatMap fnKeys).filterMap (expEntryK vis)) k = expEntryK vis k := by
+        intro k hk
+        have h1 := findLast?_filterMap_okey (fun b : ValueInfoP => parseExperimentalName b.name)
+          (expEntryK vis) (fun k b hb => (expEntryK_key hb).1) _ hK k
+        simp only [hk, if_true] at h1
+        have h2 : expEntryK (normInitVIs vis outputs (inputs.map (·.name)) inits
+              ++ normNodeVIs vis (outputs.map (·.name)) (nodeOutNames nodes)) k = none := by
+          have : findLast? (fun e => parseExperimentalName e.name = some k)
+              (normInitVIs vis outputs (inputs.map (·.name)) inits
+                ++ normNodeVIs vis (outputs.map (·.name)) (nodeOutNames nodes)) = none := by
+            apply findLast?_none_of_forall
+            intro e he
+            simp [hnp _ (mem_canonVI_name he)]
+          simp only [expEntryK, this]
+        rw [expEntryK_append, h1, h2]
+        cases hE : expEntryK vis k with
+        | none => rfl
+        | some e =>
+          obtain ⟨_, h4, h5⟩ := expEntryK_key hE
+          simp [h4, h5]
+      have hX2 : (m.functions.flatMap fnKeys).filterMap (expEntryK
+            ((normInitVIs vis outputs (inputs.map (·.name)) inits
+              ++ normNodeVIs vis (outputs.map (·.name)) (nodeOutNames nodes))
+            ++ (m.functions.flatMap fnKeys).filterMap (expEntryK vis)))
+          = (m.functions.flatMap fnKeys).filterMap (expEntryK vis) :=
+        filterMap_congr' hlook
+      have hd : decide (m.irVersion ≥ 10) = false := by simpa using hc
+      rw [hd] at hfun
+      have hfk : (m.functions.map (normFunction false)).flatMap fnKeys = m.functions.flatMap fnKeys := by
+        rw [List.flatMap_map]
+        apply flatMap_congr'
+        intro f _
+        exact fnKeys_normFunction _ f
+      have hN1 : normModel m = { m with
+          metadata := normEntries m.metadata,
+          graph := GraphP.addValueInfo (normGraph (.mk name doc nodes inits inputs outputs vis quant md))
+            ((m.functions.flatMap fnKeys).filterMap (expEntryK vis)),
+          functions := m.functions.map (normFunction false) } := by
+        simp only [normModel, hc, if_false, decide_false, hmg, flatMap_experimentalVIs_eq, GraphP.valueInfo]
+      have hvi : (GraphP.addValueInfo (normGraph (.mk name doc nodes inits inputs outputs vis quant md))
+            ((m.functions.flatMap fnKeys).filterMap (expEntryK vis))).valueInfo
+          = (normInitVIs vis outputs (inputs.map (·.name)) inits
+              ++ normNodeVIs vis (outputs.map (·.name)) (nodeOutNames nodes))
+            ++ (m.functions.flatMap fnKeys).filterMap (expEntryK vis) := by
+        simp [normGraph, GraphP.addValueInfo, GraphP.valueInfo]
+      rw [hN1]
+      simp only [normModel, hc, if_false, decide_false, flatMap_experimentalVIs_eq, hvi, hX2, hgraph, hfun,
+        hfk, normEntries_idem]
 
 end IrVerif.Serde
